@@ -100,6 +100,7 @@ MUTATORS = {
         ("fit memory updated before sweep", r"quimb/tensor/tn1d/compress\.py$", r"^(\s+)next_direction = next\(sweeps\)\s*$", r"\1next_direction = next(sweeps)\n\1old_direction = next_direction"),
     ],
     "C10": [
+        ("two-site split without renormalisation", r"quimb/tensor/tn1d/dmrg\.py$", r"^(\s+)renorm=True,\s*$", None),
         ("bond expansion keeps the skip licence", r"quimb/tensor/tn1d/dmrg\.py$", r"^(\s+)canonize = True\s*$", r"\1pass"),
         ("two-site update claims isometry", r"quimb/tensor/tn1d/dmrg\.py$", r"^(\s+)self\._k\[i\]\.modify\(data=L, inds=\(\*uix_L, u_bond_ind\)\)\s*$", r"\1self._k[i].modify(data=L, inds=(*uix_L, u_bond_ind), left_inds=uix_L)"),
         ("drop bra update", r"quimb/tensor/tn1d/dmrg\.py$", r"^(\s+)self\._b\[[^\]]+\]\.modify\(.*\)\s*$", None),
